@@ -1,7 +1,7 @@
 PROP_ID = "C07"
 PROP = {
     "level": "exploration",
-    "assumptions": ["crypto/ed25519 and the pluggable SimpleSignatureScheme/SimpleHashScheme are trusted", "single mirror on memory stores; restarts are clean (crash points belong to C10)", "state-machine unit: validator changes are a pure function of the height (the harness driver and the harness network agree by construction)"],
+    "assumptions": ["crypto/ed25519 and the pluggable SimpleSignatureScheme/SimpleHashScheme are trusted", "single mirror on memory stores; restarts are clean (crash points belong to C10)", "state-machine unit: validator changes are a pure function of the height (the harness driver and the harness network agree by construction)", "engine unit (netsim): quiescent restarts of whole tmengine.Engine instances; the prescribed set per height is a function of the case (genesis document, InitChain override, rotation), never of what a node believes"],
     "units": [{
         "bin": "mirrorsim", "pkg": "tm/tmengine/internal/tmmirror", "inject": [("mirrorsim", "tm/tmengine/internal/tmmirror")],
         "tests": [
@@ -13,12 +13,18 @@ PROP = {
         "tests": [
             {"name": "TestVerifC07SMValidatorSets", "quick": 4000, "thorough": 320000, "shards": {"quick": 4, "thorough": 16}, "env": {"GOMAXPROCS": "2"}},
         ],
+    }, {
+        # engine half: whole tmengine.Engine instances restarted inside network schedules (harness/netsim, shared with C03)
+        "bin": "netsim", "pkg": "tm/tmengine", "inject": [("netsim", "tm/tmengine")],
+        "tests": [
+            {"name": "TestVerifC07EngineRestartSets", "quick": 150, "thorough": 8000, "shards": {"thorough": 16}, "shrinktime": "60s", "salt": 0, "env": {"GOMAXPROCS": "2"}},
+        ],
     }],
 }
 CLAIM = {
     "engine": "mirrorsim",
     "technique": "stateful property-based testing (rapid op lists in testing/synctest bubbles) with an invariant oracle evaluated after every step",
-    "text": "Generated adversarial histories (the harness owns all validator keys) are run against one real tmmirror.Mirror; after every step the validator sets in the voting and committing views and in every committed header are compared (keys, powers, hashes) with the set the chain prescribes according to the harness's own registry, and list contents are re-hashed with an independent BLAKE2b implementation. State-machine unit (smsim): one real StateMachine on chains whose driver changes validator keys and powers at every height, with quiescent restarts and a crash point inside a store write; at every EnterRound / ConsiderProposedBlocks / ChooseProposedBlock call and for every proposed header the machine builds, ValidatorSet and NextValidatorSet (keys, powers, hashes) equal what the harness driver returned when finalizing h-2 and h-1, Consider/Choose receive exactly the acceptable proposals of the latest view (none withheld, none with other sets), and the presence of the Actions channel equals membership of the machine key in the set of that height, also right after a restart.",
+    "text": "Generated adversarial histories (the harness owns all validator keys) are run against one real tmmirror.Mirror; after every step the validator sets in the voting and committing views and in every committed header are compared (keys, powers, hashes) with the set the chain prescribes according to the harness's own registry, and list contents are re-hashed with an independent BLAKE2b implementation. State-machine unit (smsim): one real StateMachine on chains whose driver changes validator keys and powers at every height, with quiescent restarts and a crash point inside a store write; at every EnterRound / ConsiderProposedBlocks / ChooseProposedBlock call and for every proposed header the machine builds, ValidatorSet and NextValidatorSet (keys, powers, hashes) equal what the harness driver returned when finalizing h-2 and h-1, Consider/Choose receive exactly the acceptable proposals of the latest view (none withheld, none with other sets), and the presence of the Actions channel equals membership of the machine key in the set of that height, also right after a restart. Engine unit (netsim): 2-5 real tmengine.Engine instances on a harness-owned network, with a genesis document that differs from the set the application returned from InitChain (other powers, subset, superset, no validators) and restarts while mirror or state machine are still at the initial height; every round view handed to the strategy and every available-power figure must be the prescribed set's, proposals built by a node must carry the prescribed ValidatorSet/NextValidatorSet, no proposal or vote of a member of the prescribed set may be answered SignerUnrecognized/BadPubKeyHash, the strategy must be offered every stored proposal of the round's proposer that carries the prescribed sets, and a node that decided its prevote must have it in its own round store.",
     "design_ref": "DESIGN.md section 4 C07, section 3.1",
     "note": "Exploration only; known crash findings (C09-*) are excluded by construction.",
 }
